@@ -75,9 +75,11 @@ structure MonoAt (n : Nat) : Prop where
   guards : ∀ ctx env l gs, Mono (evalGuards n ctx env l gs) (evalGuards (n + 1) ctx env l gs)
   quals : ∀ ctx env qs body ty o, Mono (evalQuals n ctx env qs body ty o) (evalQuals (n + 1) ctx env qs body ty o)
   gen : ∀ ctx env x lc i qs body ty o, Mono (evalGen n ctx env x lc i qs body ty o) (evalGen (n + 1) ctx env x lc i qs body ty o)
+  forRng : ∀ ctx env x ao cur asc lt b, Mono (evalForRng n ctx env x ao cur asc lt b) (evalForRng (n + 1) ctx env x ao cur asc lt b)
+  genRng : ∀ ctx env x ao cur asc lt qs body ty o, Mono (evalGenRng n ctx env x ao cur asc lt qs body ty o) (evalGenRng (n + 1) ctx env x ao cur asc lt qs body ty o)
 
 theorem mono_zero : MonoAt 0 := by
-  constructor <;> intros <;> simp only [evalE, evalArgs, evalSeq, evalWhile, evalDoWhile, evalFor, evalForIn, callClo, handle, evalGuards, evalQuals, evalGen] <;> exact Mono.oof
+  constructor <;> intros <;> simp only [evalE, evalArgs, evalSeq, evalWhile, evalDoWhile, evalFor, evalForIn, callClo, handle, evalGuards, evalQuals, evalGen, evalForRng, evalGenRng] <;> exact Mono.oof
 
 /-- decompose a goal `Mono lhs rhs` whose two sides have the same shape, closing the leaves
 with the induction hypothesis -/
@@ -96,6 +98,8 @@ macro_rules
       | exact MonoAt.guards $ih _ _ _ _
       | exact MonoAt.quals $ih _ _ _ _ _ _
       | exact MonoAt.gen $ih _ _ _ _ _ _ _ _ _
+      | exact MonoAt.forRng $ih _ _ _ _ _ _ _ _
+      | exact MonoAt.genRng $ih _ _ _ _ _ _ _ _ _ _ _
       | apply Mono.bind
       | apply Mono.tryCatch
       | intro _
@@ -151,7 +155,9 @@ theorem monoAt : ∀ n, MonoAt n
       hdl := mono_hdl n ih
       guards := mono_guards n ih
       quals := mono_quals n ih
-      gen := fun ctx env x lc i qs body ty o => by rw [evalGen, evalGen]; mono_tac ih }
+      gen := fun ctx env x lc i qs body ty o => by rw [evalGen, evalGen]; mono_tac ih
+      forRng := fun ctx env x ao cur asc lt b => by rw [evalForRng, evalForRng]; mono_tac ih
+      genRng := fun ctx env x ao cur asc lt qs body ty o => by rw [evalGenRng, evalGenRng]; mono_tac ih }
 
 /-- more fuel never changes a run that did not run out of fuel -/
 theorem mono_le (n m : Nat) (h : n ≤ m) : (∀ ctx fid cells as, Mono (callClo n ctx fid cells as) (callClo m ctx fid cells as)) := by
